@@ -126,6 +126,10 @@ class Model(ClockModel):
                 states = dict(self.timeline)[c]
             else:
                 states = [self.state_before(c)]
+            if has_connective(notif) and not self.ev(notif, states[-1], c) and any(self.ev(notif, s, c) for s in states):
+                # a connective is evaluated by a helper activity after the controller's activation: whether a value
+                # that is set and reverted within that activation counts as "fired" is not settled by the statement
+                raise InvalidCase('connective true only inside one activation of the controller')
             if any(self.ev(notif, s, c) for s in states):
                 if c > entry and has_connective(notif):
                     self.pending_connective = True
@@ -189,6 +193,70 @@ def reuse_programs(draw):
             'roots': [{'name': 'ctl', 'steps': ctl},
                       {'name': 'r0', 'steps': [{'op': 'scope', 'children': [hd, {'name': 'a1', 'steps': steps}], 'body': []}]}]}
     return prog
+
+
+@st.composite
+def toggle_programs(draw):
+    """A connective over operands that go back and forth before the whole becomes true."""
+    kind = draw(st.sampled_from(['and', 'and', 'nor', 'and3', 'or']))
+    nfl = 3 if kind == 'and3' else 2
+    if kind == 'and':
+        cond = ['and', ['flag', 0], ['flag', 1]]
+    elif kind == 'nor':
+        cond = ['not', ['or', ['not', ['flag', 0]], ['not', ['flag', 1]]]]
+    elif kind == 'and3':
+        cond = ['and', ['and', ['flag', 0], ['flag', 1]], ['flag', 2]]
+    else:
+        cond = ['or', ['flag', 0], ['flag', 1]]
+    if draw(st.integers(0, 3)) == 0:
+        cond = ['and', cond, ['tcmp', 0, '>=', 2]]
+    times = sorted(draw(st.lists(st.sampled_from(CTL_TIMES), min_size=3, max_size=6, unique=True)))
+    ctl = []
+    vals = [False] * nfl
+    for t in times:
+        ctl.append({'op': 'at_eq', 't': t})
+        for _ in range(draw(st.integers(1, 2))):
+            i = draw(st.integers(0, nfl - 1))
+            vals[i] = not vals[i]
+            ctl.append({'op': 'set_flag', 'i': i, 'v': vals[i]})
+        if draw(st.integers(0, 4)) == 0:
+            ctl.append({'op': 'tset', 'i': 0, 'v': draw(st.sampled_from([0, 3]))})
+    body = [{'op': 'sleep', 'd': draw(st.sampled_from([0.25, 0.5, 1, 2, 6]))} for _ in range(draw(st.integers(0, 2)))]
+    body.append({'op': 'eternity'} if draw(st.integers(0, 3)) else {'op': 'sleep', 'd': 7})
+    notif = ['named', 0] if draw(st.booleans()) else cond
+    steps = [{'op': 'sleep', 'd': draw(st.sampled_from([0, 0.25, 0.5]))},
+             {'op': 'until', 'notif': notif, 'children': [], 'body': body}, {'op': 'sleep', 'd': 0.5}]
+    if draw(st.integers(0, 2)) == 0:
+        steps = [{'op': 'until', 'notif': ['delay', draw(st.sampled_from([2, 4, 8]))], 'children': [], 'body': steps}]
+    hd = {'name': 'hd', 'steps': [{'op': 'sleep', 'd': 0.3125}]}
+    return {'start': 0, 'objs': {'flags': nfl, 'tracked': [0, 0], 'conds': [cond]},
+            'roots': [{'name': 'ctl', 'steps': ctl},
+                      {'name': 'r0', 'steps': [{'op': 'scope', 'children': [hd, {'name': 'a1', 'steps': steps}], 'body': []}]}]}
+
+
+@st.composite
+def exit_programs(draw):
+    """Nested until() blocks whose notifications fire in one time step while the innermost body leaves through a
+    block with asynchronous (timeless) clean-up: the interrupt of an outer block must not get lost."""
+    depth = draw(st.integers(2, 3))
+    t = draw(st.sampled_from(CTL_TIMES))
+    order = draw(st.permutations(list(range(depth))))
+    ctl = [{'op': 'at_eq', 't': t}]
+    for j, i in enumerate(order):
+        ctl.append({'op': 'set_flag', 'i': i, 'v': True})
+        if j < depth - 1 and draw(st.integers(0, 3)) == 0:
+            ctl.append({'op': 'instant'})
+    inner = [{'op': 'cleanup', 'body': [{'op': 'sleep', 'd': draw(st.sampled_from([6, 9]))}],
+              'final': [{'op': 'instant'} for _ in range(draw(st.integers(1, 3)))]}]
+    for i in reversed(range(depth)):
+        blk = {'op': 'until', 'notif': ['flag', i], 'children': [], 'body': inner}
+        inner = [blk, {'op': 'sleep', 'd': draw(st.sampled_from([0.5, 1, 2]))}]
+        if draw(st.integers(0, 2)) == 0 and i:
+            inner = [{'op': 'cleanup', 'body': inner, 'final': [{'op': 'instant'}]}]
+    hd = {'name': 'hd', 'steps': [{'op': 'sleep', 'd': 0.3125}]}
+    return {'start': 0, 'objs': {'flags': depth, 'tracked': [0, 0], 'conds': []},
+            'roots': [{'name': 'ctl', 'steps': ctl},
+                      {'name': 'r0', 'steps': [{'op': 'scope', 'children': [hd, {'name': 'a1', 'steps': inner}], 'body': []}]}]}
 
 
 @st.composite
@@ -322,7 +390,7 @@ class C07(Check):
     def strategy(self, tier):
         main = programs(tier, connectives=False)
         side = programs(tier, connectives=True)
-        return st.one_of(main, main, main, main, main, main, side, reuse_programs())
+        return st.one_of(main, main, main, main, main, main, side, reuse_programs(), toggle_programs(), exit_programs())
 
     def run_case(self, prog, tier='quick'):
         out = Outcome()
@@ -361,7 +429,7 @@ class C07(Check):
         for e in it.log:
             if e[0] > it.end_seq:
                 break
-            if e[3] in KINDS:
+            if e[3] in KINDS and 'f' not in e[2]:           # (clean-up code after an interruption is not modelled)
                 got.setdefault(e[1], []).append((e[2], e[3], e[4]))
                 if e[3] == 'leave' and e[5] is not None and e[5][0] not in ('signal', 'genexit'):
                     out.fail('block_exception', pre + str(e[5][0]), 'block %s%s left with %r' % (e[1], e[2], e[5]))
